@@ -21,11 +21,15 @@ import PyamgV.Driver.C17
 import PyamgV.Driver.C18
 import PyamgV.Driver.C19
 import PyamgV.Driver.C20
+import PyamgV.Driver.ExtGraph
+import PyamgV.Driver.ExtPairwise
+import PyamgV.Driver.ExtMisc
 /-! The line-protocol driver: one request per line, one reply per line. Unknown ops reply `bad-op`. -/
 namespace PyamgV.Drv
 
 def handlers : List (List String → Option String) :=
-  [Relax.handle, Graph.handle, Num.handle, C01.handle, C02.handle, C03.handle, C04.handle, C05.handle, C06.handle, C07.handle, C08.handle, C09.handle, C10.handle, C11.handle, C12.handle, C13.handle, C14.handle, C15.handle, C16.handle, C17.handle, C18.handle, C19.handle, C20.handle]
+  [Relax.handle, Graph.handle, Num.handle, C01.handle, C02.handle, C03.handle, C04.handle, C05.handle, C06.handle, C07.handle, C08.handle, C09.handle, C10.handle, C11.handle, C12.handle, C13.handle, C14.handle, C15.handle, C16.handle, C17.handle, C18.handle, C19.handle, C20.handle,
+   ExtGraph.handle, ExtPairwise.handle, ExtMisc.handle]
 
 def dispatch (toks : List String) : String :=
   match handlers.findSome? (fun h => h toks) with
